@@ -322,8 +322,41 @@ func TestC04Packing(t *testing.T) {
 			return
 		}
 		enc := append([]byte{}, hb[:]...)
-		kind := rapid.SampledFrom([]string{"valid", "byte", "byte", "sop", "swap", "random"}).Draw(t, "hmut")
+		kind := rapid.SampledFrom([]string{"valid", "byte", "byte", "sop", "swap", "random", "ramp", "ramp"}).Draw(t, "hmut")
 		switch kind {
+		case "ramp":
+			// strictly increasing index ramp over all omega bytes; counts drawn over 0..255: continuing the ramp,
+			// increasing, equal, decreasing, random (incl. values above omega and above omega+k)
+			step := rapid.IntRange(1, 255/(Omega+K)).Draw(t, "step")
+			start := rapid.IntRange(0, 255-step*(Omega+K-1)).Draw(t, "start")
+			for i := range enc {
+				enc[i] = byte(start + i*step)
+			}
+			cm := rapid.IntRange(0, 5).Draw(t, "countmode")
+			c0 := rapid.IntRange(0, 255).Draw(t, "c0")
+			dc := rapid.IntRange(0, 12).Draw(t, "dc")
+			for i := 0; i < K; i++ {
+				v := int(enc[Omega+i])
+				switch cm {
+				case 1:
+					v = c0 + i*dc
+				case 2:
+					v = c0
+				case 3:
+					v = c0 - i*dc
+				case 4:
+					v = int(rapid.Byte().Draw(t, "cnt"))
+				case 5:
+					v = (c0 % (Omega + 1)) * (i + 1) / K
+				}
+				if v < 0 {
+					v = 0
+				}
+				if v > 255 {
+					v = 255
+				}
+				enc[Omega+i] = byte(v)
+			}
 		case "byte":
 			i := rapid.IntRange(0, len(enc)-1).Draw(t, "hi")
 			enc[i] = rapid.Byte().Draw(t, "hb")
